@@ -212,6 +212,13 @@ class Check:
                     for v in rust_mine:
                         v["confirmed_by_tlc"] = True
                     continue
+                if rust_mine and not tv and all("panic" in str(v.get("clause")) or v.get("clause") in ("hang", "crash", "abort") for v in rust_mine):
+                    # an abort of the code under test is an observed fact, not a predicate to re-decide (the scanner may abort
+                    # before any call is recorded, and then the session holds nothing TLC could look at)
+                    for v in rust_mine:
+                        v["confirmed_by_tlc"] = False
+                        v["observed_abort"] = True
+                    continue
                 if rust_mine and not tv:
                     # TLC is the judge: what the fast monitor flags and the specification's predicate does not is no verdict
                     self.tool_errors.append(f"monitor disagreement: harness flagged {self.prop} on {s.get('label')} ({rust_mine[0].get('clause')}) but TLC did not confirm it")
